@@ -43,7 +43,7 @@ def all_off(model):
     return {p: False for p in option_names(model)}
 
 
-def minify_tree(model, source, options=None, version=(3, 12, 0), capture_text=False, tree=None):
+def minify_tree(model, source, options=None, version=(3, 12, 0), tree=None, extra_hooks=None, max_paths=8):
     """-> ('ok', cpython tree, module descriptor) | ('raise', what, None). `options` are laid over the all-off vector."""
     from .absnodes import std_hooks
     from .absprint import to_obj
@@ -51,10 +51,23 @@ def minify_tree(model, source, options=None, version=(3, 12, 0), capture_text=Fa
     captured = []
     hooks = std_hooks()
     hooks['dir'] = lambda I, e, a, kw, env: dir(builtins) if a and not isinstance(a[0], Obj) else TOP
-    hooks['ast.parse'] = lambda I, e, a, kw, env: to_obj(tree if tree is not None else ast.parse(source))
+    if extra_hooks is None and (options or {}).get('constant_folding'):
+        from .props.c07 import fold_hooks
+        extra_hooks = fold_hooks()
+    hooks.update(extra_hooks or {})
+    parsed = []
+
+    def h_parse(I, e, a, kw, env):
+        if a and a[0] is source and not parsed:      # the module being minified; later parses (self-checks of a stage) keep their own hooks
+            parsed.append(1)
+            return to_obj(tree if tree is not None else ast.parse(source))
+        if extra_hooks and 'ast.parse' in extra_hooks:
+            return extra_hooks['ast.parse'](I, e, a, kw, env)
+        return to_obj(ast.parse(*a, **kw))
+    hooks['ast.parse'] = h_parse
     I = Interp(model, PKG, hooks, version=version, max_depth=900)
     I.intercept = {PKG + '.unparse': lambda I_, a, kw: (captured.append(a[0] if a else None), 'PRINTED')[1]}
-    I.MAX_PATHS = 8
+    I.MAX_PATHS = max_paths
     kw = all_off(model)
     kw.update(options or {})
     def thunk():
